@@ -207,7 +207,14 @@ class ModelMixin2:
                 self.stats['forks'] += 1
             return outs
         if le.kind in ('reorder', 'slice') and le.src and le.src in st.heap:
-            return self.list_elem(Ref('list', le.src), st, k, node)
+            outs = self.list_elem(Ref('list', le.src), st, k, node)
+            mark = f'{le.kind}{le.spec if le.kind == "slice" else ""}'
+            for v, s in outs:
+                if isinstance(v, Ref) and v.kind == 'elem':
+                    e = s.get(v.sym)
+                    if e.origin[0] in ('each', 'iterchild'):
+                        s.put(v.sym, replace(e, origin=e.origin[:3] + (mark,) if e.origin[0] == 'each' else ('iterchild-unordered',) + e.origin[1:]))
+            return outs
         if le.kind == 'str':
             return [(StrV(('elem-of', 'str list')), st)]
         return [(Unknown('element of ' + le.kind), st)]
